@@ -86,18 +86,23 @@ def run(ctx):
                                      "fill": [[0, 1], [-1, 1], [0, 0]], "mode": ["eager", "map-reduce", "cohorts", None], "sort": [True, False]}, build_wide))
     # requested labels given as a pandas RangeIndex: RangeIndex(n) (labels are their own codes; negative and too large labels are
     # simply not requested), and ranges that do not start at 0 or have a step (token t of kind "srange" is label [-3,-2,0,1,2,3][t])
-    def build_range(codes, req, func, fill, mode, vsel):
+    def build_range(codes, req, func, fill, mode, vsel, by_dask=False):
         vals = [gen.iv((5 * i + vsel) % 9 - 4) if (i + vsel) % 6 != 5 else gen.NAN for i in range(len(codes))]
         c = {"func": func, "vals": vals, "dtype": "f8", "codes": codes, "label_kind": "srange", "req": req, "req_range": True, "sort": True, "fill": fill,
              "min_count": None, "ddof": None}
         if mode != "eager":
             c.update(method=mode, chunks=[2, 2, 2])
+            if by_dask:
+                c["by_dask"] = True
+        elif by_dask:
+            return None
         return c
 
     spaces.append(gen.Space("rangeindex", {"codes": [[2, 3, 4, 2, 3, 4], [0, 2, 3, 1, 4, 5], [5, 4, 3, 2, 1, 0], [3, 3, 5, 5, 0, 2], [4, 4, 4, 4, 4, 4]],
-                                           "req": [[2, 3, 4], [2, 3], [3, 4, 5], [3, 5], [2, 4], [0, 1], [2], [4]],
+                                           # (the last four are DESCENDING ranges, negative step: sort=True still returns ascending labels)
+                                           "req": [[2, 3, 4], [2, 3], [3, 4, 5], [3, 5], [2, 4], [0, 1], [2], [4], [4, 3, 2], [5, 4, 3], [4, 2], [1, 0]],
                                            "func": ["sum", "count", "nanmax", "nanmean", "nanfirst", "argmax"], "fill": [[0, 1], [-1, 1], [0, 0]],
-                                           "mode": ["eager", "map-reduce", "cohorts", None], "vsel": [0, 1]}, build_range))
+                                           "mode": ["eager", "map-reduce", "cohorts", None], "vsel": [0, 1], "by_dask": [False, True]}, build_range))
     # boolean data: the user's fill must arrive verbatim (a NaN fill cannot be held by bool: the result widens)
     def build_bool(vals, codes, req, func, fill, mode):
         present = {c for c in codes if c >= 0}
